@@ -195,11 +195,16 @@ Definition hp_change (s : sim) (u : unit) (newr : float) (is_dmg : bool) (src : 
   if PrimFloat.eqb (uhp u) newr then s else
   let last := if is_dmg then src else ulast u in
   let s1 := emit (upd_unit s (with_hp u newr (ust u) last)) [VHPChange (uid u) (uhp u) newr] in
-  if PrimFloat.ltb 0 newr then upd_unit s1 (with_hp u newr (match ust u with Dead => Dead | _ => Alive end) last)
-  else
-    (* LimboWaitHeal is cancelable; the harness content cancels iff the unit is "revivable" *)
-    let st := if urev u then Limbo else Dead in
-    emit (upd_unit s1 (with_hp u newr st last)) [VLimbo (uid u) (urev u)].
+  (* death is final: a dead unit's HP may change, its state does not *)
+  match ust u with
+  | Dead => s1
+  | _ =>
+    if PrimFloat.ltb 0 newr then upd_unit s1 (with_hp u newr Alive last)
+    else
+      (* LimboWaitHeal is cancelable; the harness content cancels iff the unit is "revivable" *)
+      let st := if urev u then Limbo else Dead in
+      emit (upd_unit s1 (with_hp u newr st last)) [VLimbo (uid u) (urev u)]
+  end.
 
 Definition set_hp (s : sim) (id : Z) (amount : float) : sim :=
   match get_unit (units s) id with
@@ -723,6 +728,25 @@ Section Scripts.
     end.
 
   (* ---- one turn: beginTurn, phase1, action, phase2, endTurn ---- *)
+  Definition reset_events (outs : list (out F)) : list ev :=
+    flat_map (fun o => match o with
+                       | EReset i _ st => [VTurnReset i (map (fun x => (fst (fst x), snd (fst x))) st)]
+                       | _ => [] end) outs.
+
+  (* phase2 + endTurn *)
+  Definition phase2 (fuel : nat) (s : sim) : outcome :=
+    let '(t2, outs2) := Turn.step F (turn s) (@OReset F) in
+    let s' := emit (set_turn s t2) (reset_events outs2 ++ [VPhase2Start]) in
+    match execute_queue fuel s' false with
+    | Ok s6 =>
+        let s7 := emit s6 [VPhase2End] in
+        match death_check fuel s7 true with
+        | None => OutOfFuel
+        | Some s8 => exit_check (emit s8 [VTurnEnd (chars s8) (enemies s8)])
+        end
+    | x => x
+    end.
+
   Definition one_turn (fuel : nat) (s : sim) : outcome :=
     let '(t', outs) := Turn.step F (turn s) (@OStart F) in
     match outs with
@@ -734,24 +758,8 @@ Section Scripts.
         match death_check fuel s2 false with
         | None => OutOfFuel
         | Some s3 =>
-            let after_action (s : sim) : outcome :=
-              (* phase2 *)
-              let '(t2, outs2) := Turn.step F (turn s) (@OReset F) in
-              let s' := emit (set_turn s t2)
-                             (flat_map (fun o => match o with
-                                                 | EReset i _ st => [VTurnReset i (map (fun x => (fst (fst x), snd (fst x))) st)]
-                                                 | _ => [] end) outs2 ++ [VPhase2Start]) in
-              match execute_queue fuel s' false with
-              | Ok s6 =>
-                  let s7 := emit s6 [VPhase2End] in
-                  match death_check fuel s7 true with
-                  | None => OutOfFuel
-                  | Some s8 => exit_check (emit s8 [VTurnEnd (chars s8) (enemies s8)])
-                  end
-              | x => x
-              end in
-            if has_flag s3 id [FLAG_DISABLE_ACTION] then after_action s3
-            else if is_enemy s3 id && has_flag s3 id [FLAG_BREAK_EXTEND] then after_action (emit s3 [VBreakExtend id])
+            if has_flag s3 id [FLAG_DISABLE_ACTION] then phase2 fuel s3
+            else if is_enemy s3 id && has_flag s3 id [FLAG_BREAK_EXTEND] then phase2 fuel (emit s3 [VBreakExtend id])
             else
               match execute_queue fuel s3 true with
               | Ok s4 =>
@@ -763,7 +771,7 @@ Section Scripts.
                   | AOk s5 =>
                       match death_check fuel s5 false with
                       | None => OutOfFuel
-                      | Some s5' => after_action s5'
+                      | Some s5' => phase2 fuel s5'
                       end
                   end
               | x => x
